@@ -190,6 +190,8 @@ def c09(si, G, tmin, I0, model, discrete=False, ties=False):
         # target changes to I at tv
         hts, hss = hist[v]
         k = [i for i, (a, s) in enumerate(zip(hts, hss)) if a == tv and s == "I"]
+        if not k and ties and any(a == tv for a in hts):
+            continue   # infected and recovered at the same instant: the history keeps only the last entry
         if not k:
             bad.append(("no_change", "transmission %r but target history %r has no infection at %r" % ((t, u, v), hist[v], tv))); break
         i = k[0]
@@ -199,7 +201,7 @@ def c09(si, G, tmin, I0, model, discrete=False, ties=False):
         su = status_at(hist[u], t)
         if su != "I":
             # under ties the source may have been infected and recovered at the same instant
-            if not (ties and any(a == t and s == "I" for a, s in zip(*hist[u]))):
+            if not (ties and any(a == t for a in hist[u][0])):
                 bad.append(("source_not_I", "transmission %r: source is %r at that time (history %r)" % ((t, u, v), su, hist[u]))); break
     # completeness: one sourced entry per infection after the start
     ninf = 0
